@@ -125,6 +125,11 @@ pub fn observe(m: &mut Mdl, c: &Call, r: &mut Rules, w: usize) {
     let ver = m.ver.unwrap_or(Ver::V4);
     let v5 = m.ver == Some(Ver::V5);
     close_order(m, c, r);
+    if let CallKind::Timer(k) = &c.kind {
+        // the expiry itself un-arms the timer before the call's own events
+        m.armed[k.idx()] = false;
+    }
+    let pre_armed = m.armed;
 
     // ---- timer event stream (C15: cancel only when armed)
     let mut resets: Vec<(Tk, u64)> = vec![];
@@ -197,7 +202,6 @@ pub fn observe(m: &mut Mdl, c: &Call, r: &mut Rules, w: usize) {
             }
         }
         CallKind::Timer(k) => {
-            m.armed[k.idx()] = false;
             if pre.st == St::Connected {
                 match k {
                     Tk::PingreqSend => {
@@ -438,7 +442,7 @@ pub fn observe(m: &mut Mdl, c: &Call, r: &mut Rules, w: usize) {
             }
         }
     }
-    let _ = (resumed, ver);
+    let _ = (resumed, ver, pre_armed);
 }
 
 #[allow(clippy::too_many_arguments)]
